@@ -16,7 +16,8 @@ EVIDENCE = dict(
          "written file, again after cells were edited through previously handed-out note objects, and after a second image was assigned to the same pattern), and the file-only packed words SMII / SFGS; Trace_RVWords compares each result with "
          "SetSub/GetSub/NoteBytes/Image. evaluations = (object, setter, value) executions; non-trivial = old "
          "sub-field value non-zero or result differs from old word."
-         " Byte images are handed over as bytes, as a bytearray and as a memoryview the caller overwrites right away; every loaded project is inspected again after all later loads (older-version files among them).",
+         " Byte images are handed over as bytes, as a bytearray and as a memoryview the caller overwrites right away; every loaded project is inspected again after all later loads (older-version files among them)."
+         " The MIDI-in word is also set, written and loaded on the project's Output module.",
     explanation="array events: one event carries a whole axis")
 
 NOTE_FIELDS = {"note_controller": ("ctl", "controller"), "note_effect": ("ctl", "effect"),
